@@ -61,6 +61,18 @@ def _is_rederive_compare(run_, r, g):
     a, b = sides
     return (derived(a) and embedded(b)) or (derived(b) and embedded(a))
 
+def _strip_plumbing(t):
+    """ok(Result::ok(X)) / ok(Option::ok_or(X, e)) ... -> ok(X): Ok/Some-preserving conversions between Result and Option carry the
+    same success value."""
+    for _ in range(6):
+        if isinstance(t, tuple) and len(t) == 2 and t[0] == "ok" and isinstance(t[1], tuple) and t[1] and t[1][0] == "call" \
+                and re.search(r"(Result|Option)::<.*>::(ok|ok_or|ok_or_else|map_err)(::<.*>)?$", t[1][1]) and t[1][2]:
+            inner = t[1][2][0]
+            t = inner if (isinstance(inner, tuple) and inner and inner[0] == "ok") else ("ok", inner)
+        else:
+            break
+    return t
+
 def _strip_turbofish(name):
     """`a::b::<X, Y<Z>>` -> `a::b` (trailing generic arguments of a path, bracket-aware)."""
     while name.endswith(">"):
@@ -91,7 +103,7 @@ def _shape(t):
     if t[0] == "call":
         last = re.sub(r"<.*>", "", _strip_turbofish(t[1]).rsplit("::", 1)[-1])
         args = tuple(_shape(a) for a in t[2])
-        if last in ("or_else", "and_then", "map_err", "map", "ok_or", "ok_or_else") and args and ("Result::" in t[1] or "Option::" in t[1]):
+        if last in ("or_else", "and_then", "map_err", "map", "ok_or", "ok_or_else", "ok", "err") and args and ("Result::" in t[1] or "Option::" in t[1]):
             return args[0]          # Result/Option plumbing around a parse: the parse
         if last.startswith(("from_", "try_from", "parse")) and ("IN" in repr(args) or "PARSED" in repr(args)):
             return "PARSED"
@@ -166,7 +178,7 @@ def run_v1_parse_input(ctx):
                         probs.append(f"{last} is given {fmt_n(a)[:120]} instead of the supplied bytes")
                 if last in ("from_public_key_pem", "from_pkcs1_pem"):
                     pems += 1
-                    a = run_.norm.n(e["vals"][0])
+                    a = _strip_plumbing(run_.norm.n(e["vals"][0]))
                     ok = isinstance(a, tuple) and a and a[0] == "ok" and isinstance(a[1], tuple) and a[1][0] == "call" and a[1][1].endswith("from_utf8") and a[1][2] == (("in", "bytes"),)
                     if not ok:
                         probs.append(f"{last} is given {fmt_n(a)[:120]} instead of from_utf8(supplied bytes)")
